@@ -6,6 +6,11 @@ import (
 
 // CHUNK <cls> <hex> => ok <hex> | err        protocol.GetChunk / RawMessage.Chunk (must agree)
 
+var chunkOther, _ = (&protocol.Message{Tag: "zzzzzzzzzzzzzzzzzzzzzzzzzzzzzzzzzzzz", Timestamp: 1, Record: map[string]interface{}{"zzzzzzzzzzzzzzzzzzzzzz": "zzzzzzzzzzzzzzzzzzzzzzzzzzzzzzzzzzzzzzzzzzzzzzzzzzzzzzzzzzzzzzzzzzz"},
+	Options: &protocol.MessageOptions{Chunk: "ZZZZZZZZZZZZZZZZZZZZZZZZZZZZZZZZZZZZZZZZ"}}).MarshalMsg(nil)
+var chunkOther2, _ = (&protocol.PackedForwardMessage{Tag: "y", EventStream: []byte("yyyyyyyyyyyyyyyyyyyyyyyyyyyyyyyyyyyyyyyyyyyyyyyyyyyyyyyyyyyyyyyyyyyyyyyyyyyyyyyyyyyyyyyyyyyyy"),
+	Options: &protocol.MessageOptions{Chunk: "YYYYYYYYYYYYYYYYYYYYYYYYYYYYYYYYYYYYYYYYYYYYYYYY"}}).MarshalMsg(nil)
+
 func init() {
 	ops["CHUNK"] = func(a []string) string {
 		b := unhx(a[1])
@@ -17,6 +22,14 @@ func init() {
 			}
 			if err != nil {
 				return "err"
+			}
+			// the returned string must be an independent value: look at it again after the library has
+			// processed another message with the same recycled reader
+			snap := string(append([]byte{}, c...))
+			_, _ = protocol.GetChunk(chunkOther)
+			_, _ = protocol.GetChunk(chunkOther2)
+			if c != snap {
+				return "ok " + hx([]byte(snap)) + " unstable"
 			}
 			return "ok " + hx([]byte(c))
 		})
